@@ -25,6 +25,50 @@ META["decides"] += ' R-3 also: the key decoder appends extras in wire order and 
 
 CANON = "key::CoseKey::canonicalize"
 SORT_BY = "alloc::slice::<impl [T]>::sort_by"
+SORT_BY_KEY = ("alloc::slice::<impl [T]>::sort_by_key", "alloc::slice::<impl [T]>::sort_by_cached_key")
+
+
+def _key_order_ok(prog, key_term, variant):
+    """the key a label is sorted by orders labels as `variant` demands: cmp(key(a), key(b)) evaluated with C16's evaluator on its
+    boundary lattice (all pairs) against bytewise (Lexicographic) / length-first (LengthFirstLexicographic) order of the encodings"""
+    import itertools
+    from rules import c16
+
+    def subst(t, who):
+        if not isinstance(t, tuple) or not t:
+            return t
+        if t == ("field", ("deref", ("param", 1)), "0") or t == ("field", ("param", 1), "0"):
+            return ("deref", ("param", who))
+        if t[0] == "call":
+            return ("call", t[1], tuple(subst(a, who) for a in t[2])) + tuple(t[3:])
+        if t[0] in ("ref",):
+            return (t[0], subst(t[1], who), t[2])
+        if t[0] in ("deref", "tryok"):
+            return (t[0], subst(t[1], who))
+        if t[0] in ("field", "variant"):
+            return (t[0], subst(t[1], who), t[2])
+        if t[0] == "tuple":
+            return ("tuple", tuple(subst(x, who) for x in t[1]))
+        if t[0] == "cast":
+            return (t[0], t[1], subst(t[2], who)) + tuple(t[3:])
+        return t
+    comps = list(key_term[1]) if key_term[0] == "tuple" else [key_term]
+    labels = c16.INTS + c16.TEXTS
+    try:
+        for a, b in itertools.product(labels, labels):
+            got = "Equal"
+            for k in comps:
+                x, y = c16.leaf(subst(k, 0), a, b), c16.leaf(subst(k, 1), a, b)
+                if x != y:
+                    got = c16.ordname(c16.cmp(x, y))
+                    break
+            ea, eb = c16.enc(a), c16.enc(b)
+            want = c16.ordname(c16.cmp((len(ea), ea), (len(eb), eb)) if variant == "LengthFirstLexicographic" else c16.cmp(ea, eb))
+            if got != want:
+                return False
+    except Exception:
+        return False
+    return True
 
 
 def _chosen_functions(prog, f, pv, sort_effect, func_term):
@@ -62,14 +106,17 @@ def check(ctx):
     params_place = ("field", ("deref", ("param", 0)), "params")
     sorts = []
     others = []
+    key_sorts = []
     for e in pv.effects():
         if e["kind"] == "call" and e["callee"] == SORT_BY:
             sorts.append(e)
+        elif e["kind"] == "call" and e["callee"] in SORT_BY_KEY and _sorted_place(e["place"]) == params_place:
+            key_sorts.append(e)
         elif e["kind"] == "call" and e["callee"] in ("core::ops::deref::DerefMut::deref_mut",) and e["place"] == params_place:
             continue
         else:
             others.append(e)
-    ctx.ob("R-1", "frame", not others and len(sorts) in (1, 2) and all(_sorted_place(s["place"]) == params_place for s in sorts),
+    ctx.ob("R-1", "frame", not others and len(sorts) + len(key_sorts) in (1, 2) and all(_sorted_place(s["place"]) == params_place for s in sorts),
            "canonicalize touches nothing but `params`, and only by sort_by (a permutation of the list)", where=f.span,
            detail={"other_effects": [show(e["place"])[:60] for e in others], "sorts": [show(s["place"])[:80] for s in sorts]},
            sample={"sorted": [show(s["place"])[:80] for s in sorts]})
@@ -91,6 +138,18 @@ def check(ctx):
             sides = (_side(rt[2][1]), _side(rt[2][2]))
             for variant, fn_path in _chosen_functions(prog, f, pv, s, rt[2][0]).items():
                 got[variant] = (fn_path, sides[0], sides[1])
+    # a sort by KEY (`sort_by_key` / `sort_by_cached_key`, stable like sort_by): the order of the keys of two labels, evaluated
+    # on the label lattice of C16 against the order its ordering must be (the comparator it replaces is then not needed)
+    key_ok = {}
+    for s in key_sorts:
+        names = path_variants(prog, pv, conditions(f, pv, s["bb"])).get(("param", 1))
+        clo = s["args"][1]
+        if not (names and len(names) == 1 and clo[0] == "closure" and clo[1] in prog.fns):
+            continue
+        variant = next(iter(names))
+        key_ok[variant] = _key_order_ok(prog, Prov(prog.fns[clo[1]]).return_term(), variant)
+        if key_ok[variant]:
+            got[variant] = (want.get(variant), 1, 2)
     ok = set(got) == set(want) and all(got[k] == (want[k], 1, 2) for k in want)
     ctx.ob("R-1", "comparators", ok,
            "Lexicographic sorts by Label::cmp(l.0, r.0) and LengthFirstLexicographic by Label::cmp_canonical(l.0, r.0), operands not swapped",
